@@ -1,7 +1,7 @@
 (* C12 - hierarchies are nested and navigable (DeepARTMAP, SMART).
    Statements only; proofs in theories/Deep_proofs.v. *)
 From Coq Require Import List Bool Arith.
-From ART Require Import Num Vec Search Kernel BaseArt SimpleARTMAP SimpleARTMAP_proofs Deep Deep_proofs Fuzzy.
+From ART Require Import Num Vec Search Kernel BaseArt SimpleARTMAP SimpleARTMAP_proofs Deep Deep_proofs Fuzzy Deep_tree.
 Import ListNotations.
 
 (* training a chain of layers: every layer satisfies the map invariant for all
@@ -62,6 +62,23 @@ Theorem C12_two_batches_is_a_fit :
     chain_partial_fit Ks ls1 Xs2 y2 n2 m eps = Some ls2 ->
     chain_fit Ks (map sam_init rs) (zipapp Xs1 Xs2) (y1 ++ y2) 1 m eps = Some ls2.
 Proof. exact @chain_two_batches_eq_fit. Qed.
+(* whole-hierarchy forms: counts never decrease along the WHOLE chain of levels, and sharing a category at a finer
+   level implies sharing one at EVERY coarser level *)
+Theorem C12_counts_never_decrease_with_depth :
+  forall (N : Num) n (ls : list (sam (N:=N))) y,
+    Forall (fun l => layer_ok l n) ls -> chained y ls ->
+    forall j a b, nth_error (map ndistinct (columns y ls)) j = Some a ->
+                  nth_error (map ndistinct (columns y ls)) (S j) = Some b -> a <= b.
+Proof. exact @counts_never_decrease_with_depth. Qed.
+Theorem C12_nested_at_every_coarser_level :
+  forall (N : Num) n (ls : list (sam (N:=N))) y,
+    Forall (fun l => layer_ok l n) ls -> chained y ls ->
+    forall j k i i' cj, k <= j ->
+      nth_error (nth j (columns y ls) []) i = Some cj -> nth_error (nth j (columns y ls) []) i' = Some cj ->
+      j < length (columns y ls) -> i < n -> i' < n -> length y = n ->
+      exists ck, nth_error (nth k (columns y ls) []) i = Some ck /\ nth_error (nth k (columns y ls) []) i' = Some ck.
+Proof. exact @nested_at_every_coarser_level. Qed.
+Print Assumptions C12_nested_at_every_coarser_level.
 Print Assumptions C12_chain_fit.
 Print Assumptions C12_nested.
 Print Assumptions C12_map_deep.
